@@ -75,12 +75,18 @@
    signal does not change, the channel output is H D tx and the zero-forcing decode still returns x.
    The MMSE side of those channels is relation-only.
 
+   Near-isometries: every other isometry channel (k % (2 IsoEvery) = 0, c = 1, unit gain) gets the column gains
+   1 + n_j 2^-18 (n_j in -3..3, i.e. deviations of 4e-6 .. 1.1e-5 from unity, exactly representable): columns
+   orthogonal, gains almost but not exactly one.  They go through the same exact column-gain machinery
+   (gains are rationals cg[j]/cgl): the zero-forcing filter is D^-1 H^H, NOT H^H.
+
    Named deviations (fields of Dev) switch single steps to what the code does / did:
      SvdNeedsSquare           SVDMimo.decode raises for Nr > Nt (full SVD, diag(1/S) U^H shape)
      SinrCoherentInterference calc_post_processing_linear_SINRs adds the interfering streams
                               coherently ( |sum e_kj|^2 instead of sum |e_kj|^2 )
      NvNoneKeepsFilter        (plausible regression) a cached receive filter survives
                               set_noise_var(None)
+     ZfShortcutNearUnitary    (plausible regression) the pseudo-inverse is replaced by H^H when H^H H is close to I
      GmdAbsoluteTol           (plausible regression) GMD drops singular values below an ABSOLUTE threshold:
                               a well conditioned channel of small gain loses streams
      GmdTieBreaks             (plausible regression) GMD cannot handle exactly equal singular values
@@ -230,20 +236,25 @@ PickChan(sch, alpha, nr, nt, s, tries, re) ==
 IsIso(sch, k) == sch \in {"blast", "svd", "gmd"} /\ k % IsoEvery = 0
 IsoChannel(nr, nt, k, s) ==
     LET ys   == TLCEval(LcgSeq(s, 2 * nt + 1))
-        c    == 1 + (Mix(ys[2 * nt + 1]) % 2)
-        ph   == [j \in 1..nt |-> IF k % (2 * IsoEvery) = 0 THEN <<1, 0>> ELSE Pick(Units, ys[j])]
-        keys == [j \in 1..nt |-> IF k % (4 * IsoEvery) = 0 THEN j ELSE ys[nt + j]]       \* identity now and then
+        c    == IF k % (2 * IsoEvery) = 0 THEN 1 ELSE 1 + (Mix(ys[2 * nt + 1]) % 2)      \* near-isometries: c = 1
+        ph   == [j \in 1..nt |-> IF k % (4 * IsoEvery) = IsoEvery THEN <<1, 0>> ELSE Pick(Units, ys[j])]
+        keys == [j \in 1..nt |-> IF k % (4 * IsoEvery) = IsoEvery THEN j ELSE ys[nt + j]]       \* c * identity now and then
     IN  Eager([i \in 1..nr |-> [j \in 1..nt |->
             IF i <= nt /\ RankOf(keys, j) = i THEN <<c * ph[j][1], c * ph[j][2]>> ELSE <<0, 0>>]])
 ScaleOf(k) == Scales[(k % Len(Scales)) + 1]
 \* column gain exponents e_j (the channel is H diag(10^-e_j)); all zero for the ordinary channels
 HasColGain(sch, nt, k) == sch \in {"blast", "svd", "gmd"} /\ nt >= 2 /\ k % CgEvery = 3 /\ ~IsIso(sch, k)
-ColGainOf(sch, nt, k) == [j \in 1..nt |-> IF HasColGain(sch, nt, k) THEN (2 * (j - 1)) % 5 ELSE 0]
+NearIso(sch, k) == IsIso(sch, k) /\ k % (2 * IsoEvery) = 0          \* even k: handed over at unit gain (Scales)
+NearEps == <<1, -2, 2, -1, 3, -3, 1, 2>>
 RECURSIVE TenPow(_)
 TenPow(n) == IF n = 0 THEN 1 ELSE 10 * TenPow(n - 1)
-HasCg(c) == \E j \in 1..c.nt : c.cg[j] # 0
+\* column gains as rationals cg[j] / cgl  (all equal to 1 for the ordinary channels)
+ColGainDen(sch, nt, k) == IF NearIso(sch, k) THEN 262144 ELSE IF HasColGain(sch, nt, k) THEN 10000 ELSE 1
+ColGainOf(sch, nt, k) == [j \in 1..nt |-> IF NearIso(sch, k) THEN 262144 + NearEps[j]
+                                          ELSE IF HasColGain(sch, nt, k) THEN TenPow(4 - ((2 * (j - 1)) % 5)) ELSE 1]
+HasCg(c) == \E j \in 1..c.nt : c.cg[j] # c.cgl
 \* 10^4 * H D X  as an integer matrix (X Gaussian integer):  H (X_j 10^(4 - e_j))
-RxTimes1e4(c, X) == Eager(MMul(Ints(c.H), Eager([j \in 1..c.nt |-> [t \in 1..MCols(X) |-> GMul(G(TenPow(4 - c.cg[j]), 0), X[j][t])]])))
+RxTimes1e4(c, X) == Eager(MMul(Ints(c.H), Eager([j \in 1..c.nt |-> [t \in 1..MCols(X) |-> GMul(G(c.cg[j], 0), X[j][t])]])))   \* cgl * H D X
 
 ChannelFor(sch, nr, nt, k) ==
     IF IsIso(sch, k) THEN IsoChannel(nr, nt, k, Start((((k * 16 + nr) * 16 + nt) * 5) + 4)) ELSE
@@ -330,7 +341,8 @@ DecodeOf(c, r, v, qv) ==
              LET Z == ZfOf(Ints(c.H))
                  Y == Eager(MMul(Z.num, RxTimes1e4(c, ColMajor(v, c.nt))))
              IN  [kind |-> "exact", v |-> UnColMajor(Eager([j \in 1..c.nt |-> [t \in 1..MCols(Y) |->
-                                             GNorm(Y[j][t][1], Y[j][t][2], Z.den * TenPow(4 - c.cg[j]))]]))]
+                                             GNorm(Y[j][t][1], Y[j][t][2],
+                                                   Z.den * (IF Dev.ZfShortcutNearUnitary /\ NearIso(c.sch, c.k) THEN c.cgl ELSE c.cg[j]))]]))]
       [] c.sch = "mrt"      -> [kind |-> "exact", v |-> MrtDecode(c.H[1], r.m)]
       [] c.sch = "alamouti" -> [kind |-> "exact", v |-> AlaDecode(Ints(c.H), r.m)]
       [] c.sch = "svd" /\ Dev.SvdNeedsSquare /\ c.nr > c.nt -> [kind |-> "raised", v |-> None]
@@ -423,7 +435,7 @@ SetChannel(sch, nr, nt, k) ==
     /\ LET H == ChannelFor(sch, nr, nt, k)
        IN  /\ IsIso(sch, k) \/ ValidFor(sch, H)
            /\ cs' = [sch |-> sch, nr |-> nr, nt |-> nt, k |-> k, H |-> H, form |-> FormFor(sch, nr, nt, k),
-                     sc |-> ScaleOf(k), iso |-> IsIso(sch, k), cg |-> ColGainOf(sch, nt, k)]
+                     sc |-> ScaleOf(k), iso |-> IsIso(sch, k), cg |-> ColGainOf(sch, nt, k), cgl |-> ColGainDen(sch, nt, k)]
     /\ stage' = "chan"
     /\ UNCHANGED <<x, tx, rx, q, out, flt, hist, decs, cache, chanOK, dn>>
 
@@ -462,7 +474,7 @@ Transmit ==
     /\ LET r  == IF tx.kind # "exact" THEN Rel
                  ELSE IF HasCg(cs)
                       THEN LET Y == RxTimes1e4(cs, tx.m)
-                           IN  Exact(Eager([i \in 1..MRows(Y) |-> [t \in 1..MCols(Y) |-> GNorm(Y[i][t][1], Y[i][t][2], 10000)]]), tx.s2)
+                           IN  Exact(Eager([i \in 1..MRows(Y) |-> [t \in 1..MCols(Y) |-> GNorm(Y[i][t][1], Y[i][t][2], cs.cgl)]]), tx.s2)
                       ELSE Exact(Eager(MMul(Ints(cs.H), tx.m)), tx.s2)
            ds == DecSeq(cs)
        IN  /\ rx' = r
@@ -613,15 +625,15 @@ BadLengthRaises == stage = "bad" => (out.kind = "raised" /\ Len(x) % cs.nt # 0)
 (* ------------------------------ emission ------------------------------------------------ *)
 Emit ==
     IF stage' = "dec" /\ Len(hist') = HistLenOf(cs', dn') THEN
-        EmitCase([op |-> "link", sch |-> cs'.sch, nr |-> cs'.nr, nt |-> cs'.nt, k |-> cs'.k, form |-> cs'.form, sc |-> cs'.sc, iso |-> cs'.iso, cg |-> cs'.cg,
+        EmitCase([op |-> "link", sch |-> cs'.sch, nr |-> cs'.nr, nt |-> cs'.nt, k |-> cs'.k, form |-> cs'.form, sc |-> cs'.sc, iso |-> cs'.iso, cg |-> cs'.cg, cgl |-> cs'.cgl,
                   H |-> cs'.H, x |-> x', layers |-> Layers(cs'), tx |-> tx', rx |-> rx', steps |-> hist', decs |-> decs', laws |-> Laws, qq |-> QueryQ,
                   energy |-> RDiv(Energy(Vec(x')), <<Len(x'), 1>>),
                   req |-> IF tx'.kind = "rel" THEN <<"DecodeEqualsData", "EnergyPreserved">> ELSE <<>>])
     ELSE IF stage' = "flt" THEN
-        EmitCase([op |-> "filters", sch |-> cs'.sch, nr |-> cs'.nr, nt |-> cs'.nt, k |-> cs'.k, form |-> cs'.form, sc |-> cs'.sc, iso |-> cs'.iso, cg |-> cs'.cg,
+        EmitCase([op |-> "filters", sch |-> cs'.sch, nr |-> cs'.nr, nt |-> cs'.nt, k |-> cs'.k, form |-> cs'.form, sc |-> cs'.sc, iso |-> cs'.iso, cg |-> cs'.cg, cgl |-> cs'.cgl,
                   H |-> cs'.H, flt |-> flt'])
     ELSE IF stage' = "bad" THEN
-        EmitCase([op |-> "badlen", sch |-> cs'.sch, nr |-> cs'.nr, nt |-> cs'.nt, k |-> cs'.k, form |-> cs'.form, sc |-> cs'.sc, iso |-> cs'.iso, cg |-> cs'.cg,
+        EmitCase([op |-> "badlen", sch |-> cs'.sch, nr |-> cs'.nr, nt |-> cs'.nt, k |-> cs'.k, form |-> cs'.form, sc |-> cs'.sc, iso |-> cs'.iso, cg |-> cs'.cg, cgl |-> cs'.cgl,
                   H |-> cs'.H, x |-> x', out |-> out'])
     ELSE TRUE
 =============================================================================
